@@ -12,6 +12,7 @@ import (
 	"sort"
 	"strconv"
 	"strings"
+	"time"
 
 	webdav "github.com/emersion/go-webdav"
 	"github.com/emersion/go-webdav/caldav"
@@ -568,9 +569,217 @@ func emitDiscover(o *Out, r *RNG) {
 	}
 }
 
+// The three request forms must tell one story about which properties a resource has: what propname lists (under 200,
+// nothing under another status) is what allprop returns with values (under 200, nothing under another status), is what
+// a request naming all those names and one unknown name gets under 200 (and the unknown one under 404) -- for every
+// resource of every server, whatever optional values (display name, description, size limit, entity tag, modification
+// time, content type) the backend leaves empty.
+func pfFormAnswer(handler http.Handler, path, body string) (map[string]parsedResp, string) {
+	req := httptest.NewRequest("PROPFIND", "http://example.com/", strings.NewReader(body))
+	req.URL = &url.URL{Path: path}
+	req.Header.Set("Content-Type", "application/xml")
+	req.Header.Set("Depth", "infinity")
+	rec := httptest.NewRecorder()
+	handler.ServeHTTP(rec, req)
+	if rec.Code != 207 {
+		return nil, fmt.Sprintf("status-%d", rec.Code)
+	}
+	t, err := treeOfBytes(rec.Body.Bytes())
+	if err != nil {
+		return nil, "not-well-formed"
+	}
+	out := map[string]parsedResp{}
+	for _, c := range t.children {
+		if !c.elem {
+			continue
+		}
+		pr := parseResponseNode(c)
+		if len(pr.hrefs) != 1 {
+			return nil, "response-without-single-href"
+		}
+		if _, dup := out[pr.hrefs[0]]; dup {
+			return nil, "resource-answered-twice"
+		}
+		out[pr.hrefs[0]] = pr
+	}
+	return out, ""
+}
+
+func names200(pr parsedResp) []string {
+	var ns []string
+	for _, it := range pr.stats[200] {
+		ns = append(ns, it[0]+" "+it[1])
+	}
+	sort.Strings(ns)
+	return ns
+}
+
+func consistency(handler http.Handler, path string) string {
+	pn, e := pfFormAnswer(handler, path, propfindBodies["propname"])
+	if e != "" {
+		return "propname-" + e
+	}
+	ap, e := pfFormAnswer(handler, path, propfindBodies["allprop"])
+	if e != "" {
+		return "allprop-" + e
+	}
+	if len(pn) != len(ap) || len(pn) == 0 {
+		return "forms-answer-for-different-resources"
+	}
+	union := map[string]bool{}
+	for href, a := range pn {
+		b, ok := ap[href]
+		if !ok {
+			return "forms-answer-for-different-resources"
+		}
+		for code := range a.stats {
+			if code != 200 {
+				return fmt.Sprintf("propname-reports-names-under-%d %s", code, hx(href))
+			}
+		}
+		for code, items := range b.stats {
+			if code != 200 {
+				return fmt.Sprintf("allprop-reports-%s-under-%d-which-propname-%s %s", items[0][1], code, map[bool]string{true: "lists", false: "omits"}[a.has200(items[0][0], items[0][1])], hx(href))
+			}
+		}
+		if strings.Join(names200(a), "|") != strings.Join(names200(b), "|") {
+			return "propname-and-allprop-list-different-properties " + hx(href)
+		}
+		for _, n := range names200(a) {
+			union[n] = true
+		}
+	}
+	var b strings.Builder
+	b.WriteString(`<?xml version="1.0"?><D:propfind xmlns:D="DAV:"><D:prop>`)
+	var all []string
+	for n := range union {
+		all = append(all, n)
+	}
+	sort.Strings(all)
+	for _, n := range all {
+		f := strings.SplitN(n, " ", 2)
+		b.WriteString(`<x:` + f[1] + ` xmlns:x="` + f[0] + `"/>`)
+	}
+	b.WriteString(`<x:no-such-property xmlns:x="urn:verif"/></D:prop></D:propfind>`)
+	nm, e := pfFormAnswer(handler, path, b.String())
+	if e != "" {
+		return "prop-" + e
+	}
+	if len(nm) != len(pn) {
+		return "forms-answer-for-different-resources"
+	}
+	for href, a := range pn {
+		c, ok := nm[href]
+		if !ok {
+			return "forms-answer-for-different-resources"
+		}
+		if strings.Join(names200(a), "|") != strings.Join(names200(c), "|") {
+			return "named-request-and-propname-disagree " + hx(href)
+		}
+		n404 := 0
+		for code, items := range c.stats {
+			if code != 200 && code != 404 {
+				return fmt.Sprintf("named-request-answers-%d %s", code, hx(href))
+			}
+			if code == 404 {
+				n404 = len(items)
+			}
+		}
+		if n404 != len(all)+1-len(names200(a)) {
+			return "named-request-does-not-account-for-every-name " + hx(href)
+		}
+	}
+	return "ok"
+}
+
+func emitConsist(o *Out, r *RNG) {
+	opt := func(v string) string {
+		if r.Chance(45) {
+			return ""
+		}
+		return v
+	}
+	optTime := func() time.Time {
+		if r.Chance(45) {
+			return time.Time{}
+		}
+		return time.Unix(int64(r.Range(1000000, 2000000000)), 0)
+	}
+	optSize := func() int64 {
+		if r.Chance(45) {
+			return 0
+		}
+		return int64(r.Range(1, 100000))
+	}
+	principal, homeSet := "/u/", "/u/c/"
+	server := r.Pick([]string{"caldav", "carddav", "webdav", "principal"})
+	var handler http.Handler
+	switch server {
+	case "caldav":
+		b := &calBackend{principal: principal, homeSet: homeSet, objects: map[string][]caldav.CalendarObject{}}
+		for k := r.Range(1, 3); k > 0; k-- {
+			c := caldav.Calendar{Path: fmt.Sprintf("%sc%d/", homeSet, k), Name: opt("n"), Description: opt("d"), MaxResourceSize: optSize()}
+			if r.Bool() {
+				c.SupportedComponentSet = []string{"VEVENT", "VTODO"}[:r.Range(1, 2)]
+			}
+			b.calendars = append(b.calendars, c)
+			for j := r.Range(0, 2); j > 0; j-- {
+				b.objects[c.Path] = append(b.objects[c.Path], caldav.CalendarObject{Path: fmt.Sprintf("%so%d.ics", c.Path, j), ETag: opt("e"), ModTime: optTime(), ContentLength: optSize(), Data: simpleCal("u", "s")})
+			}
+		}
+		handler = &caldav.Handler{Backend: b}
+	case "carddav":
+		b := &cardBackend{principal: principal, homeSet: homeSet, objects: map[string][]carddav.AddressObject{}}
+		for k := r.Range(1, 3); k > 0; k-- {
+			c := carddav.AddressBook{Path: fmt.Sprintf("%sb%d/", homeSet, k), Name: opt("n"), Description: opt("d"), MaxResourceSize: optSize()}
+			if r.Bool() {
+				c.SupportedAddressData = []carddav.AddressDataType{{ContentType: "text/vcard", Version: "4.0"}}
+			}
+			b.books = append(b.books, c)
+			for j := r.Range(0, 2); j > 0; j-- {
+				b.objects[c.Path] = append(b.objects[c.Path], carddav.AddressObject{Path: fmt.Sprintf("%so%d.vcf", c.Path, j), ETag: opt("e"), ModTime: optTime(), ContentLength: optSize(), Card: simpleCard("x")})
+			}
+		}
+		handler = &carddav.Handler{Backend: b}
+	case "webdav":
+		m := newMemFS()
+		m.files["/"] = &webdav.FileInfo{Path: "/", IsDir: true, ModTime: optTime()}
+		for k := r.Range(1, 4); k > 0; k-- {
+			p := fmt.Sprintf("/f%d", k)
+			if r.Chance(30) {
+				m.files[p] = &webdav.FileInfo{Path: p, IsDir: true, ModTime: optTime()}
+				p += "/inner"
+			}
+			m.files[p] = &webdav.FileInfo{Path: p, Size: optSize(), ModTime: optTime(), MIMEType: opt("text/plain"), ETag: opt("e")}
+			m.content[p] = nil
+		}
+		handler = &webdav.Handler{FileSystem: m}
+	case "principal":
+		var opts []webdav.BackendSuppliedHomeSet
+		if r.Bool() {
+			opts = append(opts, caldav.NewCalendarHomeSet(homeSet))
+		}
+		if r.Bool() {
+			opts = append(opts, carddav.NewAddressBookHomeSet("/u/b/"))
+		}
+		handler = http.HandlerFunc(func(w http.ResponseWriter, req *http.Request) {
+			webdav.ServePrincipal(w, req, &webdav.ServePrincipalOptions{CurrentUserPrincipalPath: principal, HomeSets: opts})
+		})
+	}
+	path := "/"
+	if server == "principal" {
+		path = principal
+	}
+	o.Stat("consist." + server)
+	o.Emit("pf.consist", server, guard(func() string { return consistency(handler, path) }))
+}
+
 func famPfScope(o *Out, r *RNG, thorough bool) {
 	for i := 0; i < 150; i++ {
 		emitDiscover(o, r)
+	}
+	for i := 0; i < 400; i++ {
+		emitConsist(o, r)
 	}
 	for i := 0; i < 200; i++ {
 		emitPrincipalProps(o, r)
